@@ -61,6 +61,9 @@ func (ml *MemLogger) GetLogs() []*observer.LoggedEntry {
 	var index = BufferSize - 1
 	mc := ml.core
 	logs := make([]*observer.LoggedEntry, BufferSize)
+	// writers move the cursor and fill the slots under the lock
+	mc.mu.RLock()
+	defer mc.mu.RUnlock()
 	mc.r.Do(func(val interface{}) {
 		if val != nil {
 			logs[index] = val.(*observer.LoggedEntry)
